@@ -153,7 +153,7 @@ def impl(case):
 def decode(sx, case):
     if sx[0] == "unsupported":
         return {"model": {}, "spec": {}, "in_domain": False, "skip": True}
-    _, fi, fa, spec, wf, afi, afa, std, ext = sx
+    _, fi, fa, spec, wf, afi, afa, std, ext = sx[:9]
     ms = decode_matches(fi[1]) if fi[0] == "ok" else ["err", fi[1]]
     vals = [m[2] for m in ms] if fi[0] == "ok" else ms
     nodes = [[[p if isinstance(p, int) else ["k", p] for p in __import__("harness.common", fromlist=["x"]).sx_to_loc(n[0])],
